@@ -45,6 +45,10 @@ def exc_info(e):
     tname = type(e).__name__
     if isinstance(e, RuntimeError) and isinstance(cause, StopIteration):
         tname = 'StopIteration'
+    if isinstance(e, RecursionError):
+        # where the interpreter's recursion limit strikes depends on how deep the caller already was (a
+        # pool worker sits deeper than a direct child): not part of a replayable trace
+        site = None
     return {'type': tname, 'lib': isinstance(e, PyBufrKitError), 'site': site, 'entry': outer,
             'msg': str(e)[:200]}
 
